@@ -5,6 +5,7 @@ package service
 
 import (
 	"bytes"
+	"container/list"
 	"context"
 	"io"
 	"net"
@@ -145,7 +146,11 @@ func VH_C15_outcomes() {
 	reply := verifBytes("t", 2)
 	dialer := &verifDialer{conn: target}
 	want := "OK"
-	switch verifChoice("outcome", 9) {
+	switch verifChoice("outcome", 10) {
+	case 9:
+		// everything relayed, but the FIN to the client cannot be sent any more (it already went away)
+		conn.closeWriteErr = errVerifFault
+		target.reads = []verifSRead{{data: reply}}
 	case 7:
 		// the dial was abandoned because the handler's context was cancelled (server stopping)
 		dialer.dialErr = &net.OpError{Op: "dial", Net: "tcp", Err: verifCtxCanceled}
@@ -178,8 +183,14 @@ func VH_C15_outcomes() {
 	}
 	h := NewStreamHandler(NewShadowsocksStreamAuthenticator(cl, nil, nil, nil), tcpReadTimeout)
 	h.SetTargetDialer(dialer)
+	if verifFlag("debug-logging") {
+		// the server run with -verbose: what is reported must not depend on it
+		verifDebugLogging(true)
+		h.SetLogger(verifDebugLogger())
+	}
 	m := &verifTCPMetrics{}
 	h.Handle(contextBackground(), conn, m)
+	verifDebugLogging(false)
 	verifAssert("C15.outcomes.closed-once-last", len(m.closed) == 1 && m.order[len(m.order)-1] == "closed")
 	verifAssert("C15.outcomes.status", len(m.closed) == 1 && m.closed[0] == want)
 	verifAssert("C15.outcomes.auth-once-before-close", len(m.authenticated) == 1 && m.order[0] == "auth" && len(m.probes) == 0)
@@ -314,4 +325,51 @@ func verifLastIndexStr(evs []string, name string) int {
 		}
 	}
 	return k
+}
+
+// C01: what earlier connections did (a short probe that failed before the key search) has no
+// effect on later ones: two clients whose handshakes overlap (the second one's arrives between
+// two segments of the first one's) are each authenticated under their own key
+func VH_C01_overlapping_handshakes_after_a_short_probe() {
+	l := list.New()
+	for i := 0; i < 2; i++ {
+		e := MakeCipherEntry("id-"+string(rune('0'+i)), verifKey(0, verifSecrets[i]), verifSecrets[i])
+		l.PushBack(&e)
+	}
+	cl := NewCipherList()
+	cl.Update(l)
+	h := NewStreamHandler(NewShadowsocksStreamAuthenticator(cl, nil, nil, nil), tcpReadTimeout)
+	t1 := &verifStreamConn{name: "t1", remote: &net.TCPAddr{IP: net.IPv4(93, 184, 216, 34), Port: 80}}
+	t2 := &verifStreamConn{name: "t2", remote: &net.TCPAddr{IP: net.IPv4(93, 184, 216, 35), Port: 80}}
+	h.SetTargetDialer(&verifDialer2{targets: map[string]*verifStreamConn{"93.184.216.34:80": t1, "93.184.216.35:80": t2}})
+	// a scanner sends fewer bytes than a handshake and goes away
+	nProbe := []int{0, 1, 49}[verifChoice("probe-bytes", 3)]
+	probe := &verifStreamConn{name: "probe", remote: &net.TCPAddr{IP: net.IPv4(198, 51, 100, 9), Port: 40000}}
+	if nProbe > 0 {
+		probe.reads = []verifSRead{{data: verifBytes("probe", nProbe)}}
+	}
+	h.Handle(contextBackground(), probe, &verifTCPMetrics{})
+	mk := func(name string, ki int, host byte, salt int, data []byte) (*verifStreamConn, []byte) {
+		buf := &verifBuf{}
+		w := verifNewWriterWithSalt(buf, verifKey(0, verifSecrets[ki]), verifFixedSaltGen{salt})
+		w.Write(append([]byte{1, 93, 184, 216, host, 0, 80}, data...))
+		return &verifStreamConn{name: name, remote: &net.TCPAddr{IP: net.IPv4(203, 0, 113, host), Port: 50000}}, buf.b
+	}
+	d1, d2 := verifBytes("d1", 2), verifBytes("d2", 3)
+	c1, s1 := mk("c1", 0, 34, 1, d1)
+	c2, s2 := mk("c2", 1, 35, 2, d2)
+	cut := []int{1, 20, 49}[verifChoice("first-segment", 3)]
+	c1.reads = []verifSRead{{data: s1[:cut]}, {data: s1[cut:]}}
+	c2.reads = []verifSRead{{data: s2}}
+	m1, m2 := &verifTCPMetrics{}, &verifTCPMetrics{}
+	c1.onRead = func(call int) {
+		if call == 2 {
+			h.Handle(contextBackground(), c2, m2) // the other client's whole connection happens now
+		}
+	}
+	h.Handle(contextBackground(), c1, m1)
+	verifAssert("C01.overlap.first-authenticated-under-its-key", len(m1.authenticated) == 1 && m1.authenticated[0] == "id-0" && len(m1.closed) == 1 && m1.closed[0] == "OK")
+	verifAssert("C01.overlap.second-authenticated-under-its-key", len(m2.authenticated) == 1 && m2.authenticated[0] == "id-1" && len(m2.closed) == 1 && m2.closed[0] == "OK")
+	verifAssert("C02.overlap.data-intact", verifBytesEq(t1.written, d1) && len(t1.written) == 2 && verifBytesEq(t2.written, d2) && len(t2.written) == 3)
+	verifReach("C01.overlap.done", true)
 }
